@@ -15,27 +15,13 @@ function it wraps), the joins call `check_consistent_fill_value`, the scipy expo
 `check_fill_value`. -/
 def Statement_fill_policy_sound : Prop := soundB Gen.fillPolicy = true
 
-/-- **fill_policy_sound_partial.** Outside the region `ExcludedDrops` (= `sparse.diagonal`,
-`sparse.diagonalize`) the statement holds for the whole generated table: no other public function drops
-the fill value, and every listed operation has its guard. -/
-theorem fill_policy_sound_partial :
-    (∀ n ∈ publicDrops Gen.fillPolicy, ExcludedDrops n = true) ∧ guardsOk Gen.fillPolicy = true := by
-  decide +kernel
-
-/-- **fill_policy_sound_counterexample.** Whenever the generated table classifies `diagonal` or `diagonalize`
-as dropping (today: both), the full statement is false; the witness is replayed on the real code by the
-check (`sparse.diagonal(COO.from_numpy([[5,1],[2,5]], fill_value=5))` is `[0,0]`, NumPy `[5,5]`). -/
-theorem fill_policy_sound_counterexample :
-    knownDropPresent Gen.fillPolicy = true → ¬ Statement_fill_policy_sound := by
-  unfold Statement_fill_policy_sound
-  decide +kernel
-
-/-- **fill_policy_sound_dichotomy.** Exactly one of the two holds for the current source, and the kernel has
-checked which: either the known defect is absent and the FULL statement holds, or it is present and the
-full statement fails (only) there.  Together with `fill_policy_sound_partial` nothing else can hide. -/
-theorem fill_policy_sound_dichotomy :
-    (knownDropPresent Gen.fillPolicy = false ∧ Statement_fill_policy_sound) ∨
-    (knownDropPresent Gen.fillPolicy = true ∧ ¬ Statement_fill_policy_sound) := by
+/-- **fill_policy_sound.** The full statement holds for the whole table generated from the current source (the
+kernel evaluates the classification of every function of the package): deleting a guard, or dropping a
+`fill_value=` keyword at a raw construction of a function with a sparse operand, makes this theorem fail.
+(History: `diagonal`/`diagonalize` used to build `COO(coords, data, shape)` with neither guard nor fill and were
+the excluded region of a partial form of this theorem until they were repaired; their witness
+`sparse.diagonal(COO.from_numpy([[5,1],[2,5]], fill_value=5))` stays in the check and must give `[5,5]`.) -/
+theorem fill_policy_sound : Statement_fill_policy_sound := by
   unfold Statement_fill_policy_sound
   decide +kernel
 
@@ -79,6 +65,77 @@ theorem densemix_decision (constFill denseHasResultShape : Bool) :
     Gen.denseMix constFill denseHasResultShape =
       (if constFill then .ok false else if denseHasResultShape then .ok true else .error Err.value) := by
   cases constFill <;> cases denseHasResultShape <;> rfl
+
+/-- multiplication by a count is repeated addition, except `inf * 0` and `nan * 0` -/
+theorem mulNat_eq_sumRep (fill : Ext) (n : Nat) (h : ExcludedFullLane fill n = false) :
+    Ext.mulNat fill n = sumRep fill n := by
+  induction n with
+  | zero =>
+    cases fill <;> simp_all [ExcludedFullLane, Ext.isFinite, Ext.mulNat, sumRep]
+  | succ k ih =>
+    cases fill with
+    | fin q =>
+      have := ih (by simp [ExcludedFullLane, Ext.isFinite])
+      simp only [Ext.mulNat] at this ⊢
+      simp only [sumRep, ← this, Ext.add]
+      congr 1
+      rw [Int.natCast_succ, Int.mul_add, Int.mul_one]
+    | posInf =>
+      cases k with
+      | zero => simp [Ext.mulNat, sumRep, Ext.add]
+      | succ j =>
+        have := ih (by simp [ExcludedFullLane])
+        simp only [Ext.mulNat] at this ⊢
+        simp [sumRep] at this ⊢
+        rw [← this]; rfl
+    | negInf =>
+      cases k with
+      | zero => simp [Ext.mulNat, sumRep, Ext.add]
+      | succ j =>
+        have := ih (by simp [ExcludedFullLane])
+        simp only [Ext.mulNat] at this ⊢
+        simp [sumRep] at this ⊢
+        rw [← this]; rfl
+    | nan =>
+      cases k with
+      | zero => simp [Ext.mulNat, sumRep, Ext.add]
+      | succ j =>
+        have := ih (by simp [ExcludedFullLane])
+        simp only [Ext.mulNat] at this ⊢
+        simp [sumRep] at this ⊢
+        rw [← this]; rfl
+
+/-- **Statement_fill_contribution** (full strength): what an add-reduction adds to a lane for its unstored elements
+(the expression generated from `SparseArray.reduce`) is the sum of that many copies of the fill value — for every fill
+value (finite, ±inf, NaN) and every count, zero included. -/
+def Statement_fill_contribution : Prop := ∀ fill n, Gen.fillContribution fill n = sumRep fill n
+
+/-- **fill_contribution_partial.** Outside `ExcludedFullLane` (no unstored element in the lane AND a non-finite fill —
+the region of finding F-sum-nonfinite-fill) the statement holds for all fills and counts.  The proof goes through for
+the expression as it is today (`fill * missing`) and for the repaired one (`0 if missing == 0 else fill * missing`). -/
+theorem fill_contribution_partial (fill : Ext) (n : Nat) (h : ExcludedFullLane fill n = false) :
+    Gen.fillContribution fill n = sumRep fill n := by
+  have key := mulNat_eq_sumRep fill n h
+  unfold Gen.fillContribution
+  first
+  | exact key
+  | (split
+     · rename_i h0; subst h0; rfl
+     · exact key)
+
+/-- **fill_contribution_counterexample.** If the generated expression gives NaN for a lane without unstored elements and
+fill `+inf` (today it does: `inf * 0`), the full statement is false — NumPy adds nothing there.  The check evaluates
+the premise with the compiled model and replays `sum(COO.from_numpy([[1,inf],[2,3]], fill_value=inf), axis=0)`. -/
+theorem fill_contribution_counterexample (h : Gen.fillContribution Ext.posInf 0 = Ext.nan) :
+    ¬ Statement_fill_contribution := by
+  intro hs
+  have := hs Ext.posInf 0
+  rw [h] at this
+  exact absurd this (by decide)
+
+/-- non-vacuity of the excluded region and of its complement -/
+example : ExcludedFullLane Ext.posInf 0 = true ∧ ExcludedFullLane Ext.nan 3 = false ∧ ExcludedFullLane (Ext.fin 2) 0 = false ∧
+    sumRep Ext.negInf 2 = Ext.negInf ∧ sumRep (Ext.fin 2) 3 = Ext.fin 6 ∧ Ext.mulNat Ext.posInf 0 = Ext.nan := by decide
 
 /-- non-vacuity: the table is not empty, it contains the zero-fill-only products with their guard, a
 propagating and a computing function, and the excluded region is inhabited exactly as the dichotomy says -/
